@@ -28,7 +28,7 @@ LiveOk(e) ==
   /\ e.treelocked = 0   \* tree bins with a non-zero lock word or a registered waiter
 
 Init == tr \in 1..Len(Traces) /\ l = 1
-Next == /\ l <= Len(Ev) /\ LiveOk(Ev[l]) /\ l' = l + 1 /\ UNCHANGED tr
+Next == /\ l <= Len(Ev) /\ l' = l + 1 /\ UNCHANGED tr /\ LiveOk(Ev[l])
 Spec == Init /\ [][Next]_vars
 Done == l > Len(Ev)
 Report ==
